@@ -80,3 +80,10 @@ def run(ctx):
         if i % 30 == 0:
             ctx.sample(dict(desc, iterations=it, evaluated=info.get("evaluated"), budget=info.get("budget"),
                             passing_last_iteration=info.get("n_accept_last"), returned_rows=len(S["ret"])))
+
+    # a monitor that could not recognise the recorded draw pattern has not judged that session: if that happens often the
+    # verdict is "inconclusive", never "held"
+    _skipped = ctx.counters.get("pattern_not_found", 0) + ctx.counters.get("sessions_without_row_identity", 0) \
+        + ctx.counters.get("rejection_sessions_without_row_identity", 0) + ctx.counters.get("iterative_sessions_without_row_identity", 0)
+    if ctx.replay is None and _skipped > 0.25 * (n):
+        ctx.inconclusive = "%d of %d sessions could not be judged (draw pattern or row identity not recognised)" % (_skipped, n)
